@@ -122,6 +122,98 @@ func checkLoaded(c *fw.Ctx, tr *iavl2.Tree, t int64, snap model.Snap, hash []byt
 	return ok
 }
 
+// lockedCommit: a second SQLite connection holds the write lock of changelog.sqlite or tree.sqlite
+// while ONE version is committed (as a backup job or a sqlite3 shell would). Only acknowledged
+// commits are judged: if SaveVersion reports the failure nothing is asked of that version; if it
+// reports success the version must reload exactly after close and reopen. The versions committed
+// before must reload in both cases.
+func lockedCommit(c *fw.Ctx, x *v2History, cfg v2cfg, dir string) {
+	prev := x.M.Latest
+	h, err := openV2(dir, cfg)
+	if err != nil {
+		return
+	}
+	if err := h.tree.LoadVersion(prev); err != nil {
+		h.close()
+		return
+	}
+	file := []string{"changelog.sqlite", "tree.sqlite"}[(c.Index/2)%2]
+	M2, R2 := x.M.Clone(), x.R.Clone()
+	vc := x.vc
+	ops := genWriteSet(c.Rng, x.universe, M2.Work, &vc, false)
+	if len(ops) == 0 {
+		vc++
+		ops = []v2op{{k: x.universe[0], v: []byte(fmt.Sprintf("v%d", vc))}}
+	}
+	for _, o := range ops {
+		if o.del {
+			h.tree.Remove(o.k)
+			M2.Remove(string(o.k))
+			R2.Remove(o.k)
+		} else {
+			h.tree.Set(o.k, o.v)
+			M2.Set(string(o.k), string(o.v))
+			R2.Set(o.k, o.v)
+		}
+	}
+	locker, err := sqlite3.Open("file:" + filepath.Join(dir, file))
+	if err != nil {
+		h.close()
+		return
+	}
+	if err := locker.Exec("BEGIN IMMEDIATE"); err != nil {
+		locker.Close()
+		h.close()
+		c.Obs("v2_lock_not_obtained", 1)
+		return
+	}
+	var hash []byte
+	var ver int64
+	var saveErr error
+	done, _, ev := fw.Bounded(120*time.Second, "github.com/cosmos/iavl/v2", func() { hash, ver, saveErr = h.tree.SaveVersion() })
+	_ = locker.Exec("ROLLBACK")
+	locker.Close()
+	if !done {
+		c.Res.Inconcl = "SaveVersion under a foreign write lock did not return: " + ev
+		return
+	}
+	h.close() // the handle is abandoned either way
+	hist := fmt.Sprintf("%s; then, with a foreign connection holding the write lock of %s, v%d:[%s] SaveVersion -> err=%v", x.hist(), file, prev+1, opsStr(ops), saveErr)
+	re, err := openV2(dir, cfg)
+	if err != nil {
+		c.Res.Inconcl = err.Error()
+		return
+	}
+	if err := re.tree.LoadVersion(prev); err != nil {
+		c.Violate(int(prev), "v2p|locked-commit|previous-version-lost", "LoadVersion(%d) fails after the commit of %d ran into a foreign lock: %v; %s", prev, prev+1, err, hist)
+	} else {
+		checkLoaded(c, re.tree, prev, x.M.Vers[prev], x.hashes[prev], x.universe, "locked-commit|previous", hist)
+	}
+	re.close()
+	if saveErr != nil {
+		c.Obs("v2_locked_commits_reported_as_failed", 1)
+		return
+	}
+	rh, rv, _ := R2.Commit()
+	M2.Commit()
+	if ver != rv || !bytes.Equal(hash, rh) {
+		c.Violate(int(ver), "v2p|locked-commit|hash", "SaveVersion under a foreign lock returned (%x,%d), the reference says (%x,%d); %s", hash, ver, rh, rv, hist)
+		return
+	}
+	re2, err := openV2(dir, cfg)
+	if err != nil {
+		c.Res.Inconcl = err.Error()
+		return
+	}
+	defer re2.close()
+	if err := re2.tree.LoadVersion(ver); err != nil {
+		c.Violate(int(ver), "v2p|locked-commit|acknowledged-version-lost", "SaveVersion reported version %d as committed although %s was locked by another connection, but LoadVersion(%d) after close and reopen fails: %v; %s", ver, file, ver, err, hist)
+		return
+	}
+	checkLoaded(c, re2.tree, ver, M2.Vers[ver], hash, x.universe, "locked-commit|acknowledged", hist)
+	c.Obs("v2_locked_commits_acknowledged_and_reloaded", 1)
+}
+
 func init() {
 	fw.Register(&fw.Check{
 		ID:          "C20",
@@ -130,7 +222,7 @@ func init() {
 		CaseTimeout: 300e9,
 		Rule: "case = one normal-form history (5-14 versions incl. empty versions and commits without writes; 1-10 keys) written by a v2 tree over on-disk SQLite (checkpoint interval from {1,2,3,7}, HeightFilter{0,1}, EvictionDepth{-1,1,8}, ShardTrees{off,on}; combination = case index mod 48) and then closed. " +
 			"(reload) for EVERY version t the database is reopened by a fresh tree and LoadVersion(t) must succeed with Version()=t, the root hash returned at commit, Size, Get of every probe key and full iteration equal to the model of t - targets fall on, just after and far after a checkpoint (the root table tells which; counted per class). (continue) from the reloaded latest version 2-3 further write sets are committed and every hash must equal the reference tree continuing the uninterrupted history; then the continued store is reloaded again. " +
-			"(prune) on a copy of the store DeleteVersionsTo(n) for a random n is issued, the harness waits (bounded polling of the root table; not draining within the bound is INCONCLUSIVE, not a violation) and commits one more version, closes and reopens: the latest version and every version at or above the last checkpoint not after n must load with the right hash and contents. (snapshot) SaveSnapshot at the latest version, then LoadSnapshot(version, PreOrder) on a fresh tree: root hash and contents must equal the source version. " +
+			"(prune) on a copy of the store DeleteVersionsTo(n) for a random n is issued, the harness waits (bounded polling of the root table; not draining within the bound is INCONCLUSIVE, not a violation) and commits one more version, closes and reopens: the latest version and every version at or above the last checkpoint not after n must load with the right hash and contents. (snapshot) SaveSnapshot at the latest version, then LoadSnapshot(version, PreOrder) on a fresh tree: root hash and contents must equal the source version. (locked commit, every 2nd case) one further version is committed while a second SQLite connection holds the write lock of changelog.sqlite or tree.sqlite: if SaveVersion acknowledges the commit the version must reload exactly after close and reopen (if it reports the failure only the earlier versions are checked). " +
 			"distinct = hash(options, write sets); non-trivial = >=1 reload of a non-checkpoint version and >=1 continued commit.",
 		Assumptions: []string{"M and R as oracles; the root table is read directly (read-only SQLite connection) to classify load targets and to detect the end of background pruning", "continuation is judged from the latest version (re-committing an existing v2 version is not part of the property)"},
 		Run: func(c *fw.Ctx) {
@@ -270,6 +362,15 @@ func init() {
 					}
 				}
 			}
+			// ---- a commit while another connection holds the write lock of one of the two files ----
+			if len(c.Res.Violations) == 0 && c.Index%2 == 0 {
+				bdir := dir + "-busy"
+				os.RemoveAll(bdir)
+				if err := copyDir(dir, bdir); err == nil {
+					lockedCommit(c, x, cfg, bdir)
+				}
+				os.RemoveAll(bdir)
+			}
 			c.Res.Nontrivial = nonCheckpointReloads >= 1 && continued >= 1
 		},
 		Floor: func(obs map[string]int, evals, nontrivial int) string {
@@ -308,7 +409,7 @@ func pruneAndReload(c *fw.Ctx, x *v2History, cfg v2cfg, pdir string, rows map[in
 	}
 	// bounded wait: the root rows below the kept checkpoint disappear at the end of tree pruning
 	drained := false
-	for i := 0; i < 150; i++ {
+	for i := 0; i < 3000; i++ { // (up to 60 s on a stalled machine; a prune of these trees takes milliseconds)
 		time.Sleep(20 * time.Millisecond)
 		r, err := rootRows(pdir)
 		if err != nil {
